@@ -1142,6 +1142,15 @@ def _oracle(ctx):
 # ---------------------------------------------------------------------------------------------
 # correspondence: model enc(dec v) vs real from_dict(v).to_dict()
 
+class _Shim(object):
+    """Wraps an already computed dictionary so that it can stand where an object is expected."""
+    def __init__(self, d):
+        self._d = d
+
+    def to_dict(self):
+        return self._d
+
+
 MODEL_CLASSES = {
     'DateTime': lambda L: L['dt'].DateTime, 'Date': lambda L: L['dt'].Date, 'Time': lambda L: L['dt'].Time,
     'AnalysisPeriod': lambda L: L['ap'].AnalysisPeriod, 'Location': lambda L: L['loc'].Location,
@@ -1311,6 +1320,81 @@ def _correspondence(ctx):
     tn = [_default_name(s) for s in names] + ['my custom name', 'dry bulb temperature', 'pm25 a1b', 'x', 'a  b', "it's"]
     core.compare_batch(ctx, 'titlekey', tn, lambda s: 'titlekey ' + _hx(s),
                        lambda s: 'ok s' + _hx(s.title().replace(' ', '')))
+
+    # colour ranges, legend parameters, legends (3D / 2D properties are not modelled: only dictionaries
+    # without these keys are sent to the model)
+    def no_props(d):
+        lp = d.get('legend_parameters') if isinstance(d.get('legend_parameters'), dict) else d
+        return 'properties_3d' not in lp and 'properties_2d' not in lp
+
+    def lpc_reader(d):
+        back = L['lg'].LegendParametersCategorized.from_dict(copy.deepcopy(d))
+        out = back.to_dict()
+        if not d.get('category_names') or d.get('category_names') == {'type': 'Default'}:
+            out['category_names'] = ('<generated>',)       # the text of generated names is not modelled
+        return _Shim(out)
+
+    def legend_specs():
+        out = []
+        for _ in range(120 * n):
+            g = gen_legend(rng)
+            if g['lp'] is not None and g['lp']['cls'] != 'LegendParameters':
+                g['lp'] = gen_legendpar(rng)
+            if g['lp'] is not None:
+                g['lp'].pop('p3d', None)
+                g['lp'].pop('p2d', None)
+                g['lp'].pop('min', None)
+                g['lp'].pop('max', None)
+            out.append(g)
+        return out
+
+    lgroups = [
+        ('ColorRange', [gen_colorrange(rng) for _ in range(200 * n)], L['col'].ColorRange.from_dict),
+        ('LegendParameters', [gen_legendpar(rng) for _ in range(250 * n)], L['lg'].LegendParameters.from_dict),
+        ('LegendParametersCategorized', [gen_legendpar_cat(rng) for _ in range(120 * n)], lpc_reader),
+        ('Legend', legend_specs(), L['lg'].Legend.from_dict),
+    ]
+    for cls, specs, reader in lgroups:
+        ds = [d for d in real_dicts(specs) if no_props(d)]
+        _model_rt(ctx, 'rt_' + cls, cls, ds, reader)
+        muts = []
+        for d in ds:
+            muts += [m for m in _mutations(d, rng, 2, strings=(cls != 'ColorRange')) if no_props(m)]
+            if cls == 'Legend' and isinstance(d.get('legend_parameters'), dict) and rng.random() < 0.5:
+                v = copy.deepcopy(d)
+                v['legend_parameters'] = _mutations(v['legend_parameters'], rng, 1)[0]
+                if no_props(v):
+                    muts.append(v)
+        _model_rt(ctx, 'rtmut_' + cls, cls, muts, reader)
+
+    # design-day conditions, design days, DDY
+    parts = [gen_designday_parts(rng) for _ in range(150 * n)]
+    dgroups = [
+        ('DryBulbCondition', [p_[0] for p_ in parts], L['dd'].DryBulbCondition.from_dict),
+        ('HumidityCondition', [p_[1] for p_ in parts], L['dd'].HumidityCondition.from_dict),
+        ('WindCondition', [p_[2] for p_ in parts], L['dd'].WindCondition.from_dict),
+        ('SkyCondition', [p_[3] for p_ in parts], L['dd']._SkyCondition.from_dict),
+        ('DesignDay', [gen_designday(rng) for _ in range(80 * n)], L['dd'].DesignDay.from_dict),
+    ]
+    ddys = []
+    for _ in range(25 * n):
+        loc = gen_location(rng)
+        ddys.append({'cls': 'DDY', 'location': loc,
+                     'days': [gen_designday(rng, loc) for _ in range(rng.choice([1, 2, 3]))]})
+    dgroups.append(('DDY', ddys, L['ddy'].DDY.from_dict))
+    for cls, specs, reader in dgroups:
+        ds = real_dicts(specs)
+        _model_rt(ctx, 'rt_' + cls, cls, ds, reader)
+        muts = []
+        for d in ds:
+            muts += _mutations(d, rng, 2, strings=(cls in ('HumidityCondition', 'DesignDay')))
+            if cls == 'DesignDay' and rng.random() < 0.6:
+                v = copy.deepcopy(d)
+                sub = rng.choice(['dry_bulb_condition', 'humidity_condition', 'wind_condition',
+                                  'sky_condition', 'location'])
+                v[sub] = _mutations(v[sub], rng, 1, strings=False)[0]
+                muts.append(v)
+        _model_rt(ctx, 'rtmut_' + cls, cls, muts, reader)
 
     # collections: every class and immutable twin
     for kind in sorted(COLL_CLASSES):
